@@ -48,7 +48,7 @@ class Experiment:
                          'Fluorescence Channels': getattr(self, 'fl_pad', ('', ''))[0] + ', '.join(d['fl']) + getattr(self, 'fl_pad', ('', ''))[1], 'Time Channel': d['time']})
         return pd.DataFrame(rows).set_index('ID')
 
-    def write_fcs(self, name, iid, kind='cells', n=600, voltage=450, log_fl=True, seed=0, linear_scatter=False, nonneg=False, scatter_out=False, time_order='sorted', voltages=None):
+    def write_fcs(self, name, iid, kind='cells', n=600, voltage=450, log_fl=True, seed=0, linear_scatter=False, nonneg=False, scatter_out=False, time_order='sorted', voltages=None, few_nonpos=False):
         d = self.inst[iid]
         r = np.random.RandomState(seed)
         names = [d['fsc'], d['ssc']] + d['fl'] + [d['time']]
@@ -100,6 +100,10 @@ class Experiment:
                 data[:, 2:2 + len(d['fl'])] = np.maximum(data[:, 2:2 + len(d['fl'])] - 350 * (kind != 'beads'), 0.)
             elif not nonneg:
                 data[:, 2:2 + len(d['fl'])] -= 350 * (kind != 'beads')     # floats may be negative (background subtracted)
+            if few_nonpos and kind != 'beads':
+                # a large acquisition in which only two events of the first fluorescence channel are not positive (one zero, one negative)
+                data[n // 2, 2] = 0.0
+                data[n // 2 + 7, 2] = -3.0
             if scatter_out and kind != 'beads':
                 # float scatter values outside the declared range (above $PnR-1, negative), spread over the acquisition
                 idx = r.choice(np.arange(260, n - 110), size=max(4, n // 25), replace=False)
